@@ -112,10 +112,17 @@ class BasePID(metaclass=ABCMeta):
         """
         self._dist = dist
 
+        # Defaults are spelled the way the distribution addresses its variables
+        # (by name when it has names), since they are parsed in that mode below.
+        names = dist.get_rv_names()
+        if names is None:
+            all_rvs = dist.rvs
+        else:
+            all_rvs = [[names[i] for i in rv] for rv in dist.rvs]
         if target is None:
-            target = dist.rvs[-1]
+            target = all_rvs[-1]
         if sources is None:
-            sources = [var for var in dist.rvs if var[0] not in target]
+            sources = [var for var in all_rvs if var[0] not in target]
 
         self._sources = tuple(map(tuple, sources))
         self._target = tuple(target)
